@@ -51,8 +51,8 @@ def c02_jobs(tier):
     # deep chains (an encoder or decoder with its own stack), many empty children (counters that only some exits decrement)
     for d in ((17, 40, 70) if tier == "quick" else (17, 33, 40, 65, 70, 130, 300)):
         jobs.append(J("hsms", "ZZ_C02_chain", d=d, call_depth=3000, fuel=400_000_000))
-    for n, kind in ([(600, 0), (600, 1)] if tier == "quick" else [(600, 0), (600, 1), (70000, 0)]):
-        jobs.append(J("hsms", "ZZ_C02_manylists", n=n, kind=kind, fuel=2_000_000_000, timeout_s=7200))
+    for n, kind in ([(600, 0), (600, 1)] if tier == "quick" else [(600, 0), (600, 1), (70000, 0), (1100000, 0)]):
+        jobs.append(J("hsms", "ZZ_C02_manylists", n=n, kind=kind, fuel=40_000_000_000, heavy=(1 if n > 500000 else 0), timeout_s=7200))
     for n, parts in [(300, 1), (70000, 1), (16777215, 1), (40000, 3), (9000000, 2)]:  # top byte of the message length = 1; a list whose children add up to more than one item may hold
         jobs.append(J("hsms", "ZZ_C02_bigmessage", n=n, parts=parts, decode=0, heavy=(1 if n > 500000 else 0), fuel=16_000_000_000, timeout_s=7200))
     return jobs
@@ -71,6 +71,8 @@ def c01_jobs(tier):
         jobs.append(J("hsms", "ZZ_C02_chain", d=d, call_depth=3000, fuel=400_000_000))
     for n, kind in ((600, 0), (600, 1)):
         jobs.append(J("hsms", "ZZ_C02_manylists", n=n, kind=kind, fuel=2_000_000_000, timeout_s=7200))
+    if tier != "quick":
+        jobs.append(J("hsms", "ZZ_C02_manylists", n=1100000, kind=0, fuel=40_000_000_000, heavy=1, timeout_s=7200))
     if tier == "quick":
         jobs += [J("hsms", "ZZ_C01_tree", depth=2, width=2, menu=2, maxn=1)]
         bsizes = [255, 256, 257]
